@@ -234,6 +234,14 @@ func c01Build(r *vr.Report, c c01Config) *c01Setup {
 			menuAll(m)
 		}
 	}
+	// strategy isolate: the node that is allowed to decide early — the first correct node, or (when the faulty validator proposes in
+	// round 2) the correct proposer of round 1, so that round 1 has no proposal once that node has decided and left
+	isolated := 0
+	if c.Strategy == "isolate" && c.ByzPos == 2 {
+		if j, ok := nodeOf[w.proposerOf(1)]; ok {
+			isolated = j
+		}
+	}
 	e.onPublish = func(m *dsMsg, byNode int) []uint32 {
 		var out []uint32
 		switch m.Kind {
@@ -264,7 +272,7 @@ func c01Build(r *vr.Report, c c01Config) *c01Setup {
 				// the two-faced validator tells every node what that node wants to hear
 				v := m.mis[0].Msg.(*VoteMessage).Vote
 				bid := v.BlockID
-				if c.Strategy == "isolate" && v.Type == tmproto.PrecommitType && byNode != 0 && !bid.IsZero() && !strings.HasPrefix(m.Block, "X") {
+				if c.Strategy == "isolate" && v.Type == tmproto.PrecommitType && byNode != isolated && !bid.IsZero() && !strings.HasPrefix(m.Block, "X") {
 					// ... except that its precommit for a block it did not propose itself goes to the first node only; the others get
 					// a precommit for nil (they reach the precommit timeout without deciding while the first node can decide)
 					bid = types.BlockID{}
@@ -389,6 +397,7 @@ func c01Configs() []c01Config {
 	for _, pr := range []string{"pol", "one"} {
 		cfgs = append(cfgs, c01Config{ByzPos: 1, Strategy: "isolate", Prop: pr, MaxRound: 1, MaxDev: dev, Eager: true, Mode: "dev"})
 	}
+	cfgs = append(cfgs, c01Config{ByzPos: 2, Strategy: "isolate", Prop: "one", MaxRound: 2, MaxDev: dev - 1, Eager: true, Mode: "dev"})
 	// unequal powers with a total that is 2 modulo 3 (the quorum arithmetic's rounding matters): 2,1,1,1; the faulty validator holds 1 of 5
 	skew := []int64{2, 1, 1, 1}
 	sw := newDsWorld(skew, "c01")
